@@ -81,6 +81,8 @@ impl PerVisibleAlphabetConstraints {
             _ => return Ok(None),
         }
         match constraint {
+            // ITU-T X.691 clause 10.3.10: an extensible permitted alphabet is not PER-visible
+            Constraint::Subtype(c) if c.extensible => Ok(None),
             Constraint::Subtype(c) => match &c.set {
                 ElementOrSetOperation::Element(e) => Self::from_subtype_elem(Some(e), string_type),
                 ElementOrSetOperation::SetOperation(s) => Self::from_subtype_elem(
